@@ -287,6 +287,127 @@ def check_non_rule(v):
     return None
 
 
+FILE_NON_RULES = [False, True, 0, 1, 42, 1.5, {}, {'role': 'admin'}, {'a': {'b': 'c'}}, [None], [['@'], 0], [True], [{}],
+                  ['@', ['@', 1]]]
+
+
+def non_rules_in_files():
+    import json
+    import warnings
+    from oslo_policy import policy
+    from bounded.loader import Sandbox
+    ev = nt = 0
+    viol = []
+
+    def bad(layout, v, what):
+        viol.append({'key': 'file value %r (%s)' % (v, layout),
+                     'detail': 'a policy file giving the non-rule value %r to a policy: %s (only "", [] and @ mean allow)' % (v, what)})
+    for v in FILE_NON_RULES:
+        # (1) Rules.load with a permissive default rule
+        ev += 1
+        nt += 1
+        try:
+            rules = policy.Rules.load(json.dumps({'p:x': v, 'default': ''}), 'default')
+        except Exception:       # noqa
+            rules = None        # rejected at load
+        if rules is not None:
+            try:
+                chk = rules['p:x']
+                d = bool(chk({}, {'roles': []}, None))
+            except Exception as e:      # noqa
+                d = 'raised %s' % type(e).__name__
+            if d is not False:
+                bad('Rules.load, default rule ""', v, 'the name decided %r' % (d,))
+        # (2) and (3) through an enforcer
+        for layout in ('registered-default', 'policy.d-override'):
+            ev += 1
+            sb = Sandbox()
+            try:
+                if layout == 'registered-default':
+                    sb.write('policy.json', {'p:x': v}, fmt='json')
+                    conf = sb.conf(policy_file='policy.json')
+                else:
+                    sb.write('policy.json', {'p:x': '@'}, fmt='json')
+                    sb.write('policy.d/10-lock.json', {'p:x': v}, fmt='json')
+                    conf = sb.conf(policy_file='policy.json', policy_dirs=['policy.d'])
+                with warnings.catch_warnings():
+                    warnings.simplefilter('ignore')
+                    e = policy.Enforcer(conf)
+                    if layout == 'registered-default':
+                        e.register_default(policy.RuleDefault('p:x', '@'))
+                    try:
+                        d = bool(e.enforce('p:x', {}, {'roles': []}))
+                    except Exception as ex:     # noqa
+                        d = None                # rejected at load (or a documented failure): nothing granted
+                if d is True:
+                    bad(layout, v, 'enforce decided True')
+            finally:
+                sb.close()
+    return ev, nt, viol
+
+
+def nonbool_leaves(seed=0):
+    from oslo_policy import _parser, _checks
+    ev = nt = 0
+    viol = []
+    ACCEPT = ['yes', 2, [0], {'k': None}, 1.5, ('',), True]
+    REJECT = [None, '', [], {}, 0, 0.0, (), False]
+
+    class ValCheck(_checks.Check):
+        answers = {}
+
+        def __call__(self, target, creds, enforcer, current_rule=None):
+            return ValCheck.answers[self.match]
+    had = _checks.registered_checks.get('vq')
+    _checks.registered_checks['vq'] = ValCheck
+    try:
+        rng = random.Random(seed)
+        names = ['vq:a', 'vq:b', 'vq:c']
+        texts = []
+        for k in range(1, 6):
+            for seq in itertools.product(SYMS, repeat=k):
+                if not 1 <= seq.count('L') <= 3:
+                    continue
+                it = iter(names)
+                toks = [next(it) if t == 'L' else t for t in seq]
+                try:
+                    ast = ref_parse(toks)
+                except Reject:
+                    continue
+                texts.append((' '.join(toks), ast, [t for t in toks if t.startswith('vq:')]))
+        lists = [([['vq:a'], ['vq:b']], ('or', [('leaf', 'vq:a'), ('leaf', 'vq:b')]), ['vq:a', 'vq:b']),
+                 ([['vq:a', 'vq:b']], ('and', [('leaf', 'vq:a'), ('leaf', 'vq:b')]), ['vq:a', 'vq:b']),
+                 ([['vq:a', 'vq:b'], ['vq:c']], ('or', [('and', [('leaf', 'vq:a'), ('leaf', 'vq:b')]), ('leaf', 'vq:c')]),
+                  ['vq:a', 'vq:b', 'vq:c']),
+                 (['vq:a', ['vq:b', 'vq:c']], ('or', [('leaf', 'vq:a'), ('and', [('leaf', 'vq:b'), ('leaf', 'vq:c')])]),
+                  ['vq:a', 'vq:b', 'vq:c'])]
+        for rule, ast, used in texts + lists:
+            ev += 1
+            nt += 1
+            chk = _parser.parse_rule(rule)
+            for bits in itertools.product([False, True], repeat=len(used)):
+                ValCheck.answers = {u.split(':')[1]: (rng.choice(ACCEPT) if b else rng.choice(REJECT)) for u, b in zip(used, bits)}
+                truth = dict(zip(used, bits))
+                want = ref_eval(ast, lambda t: truth[t])
+                try:
+                    got = bool(_checks._check(chk, {}, {}, None, None))
+                except Exception as e:      # noqa
+                    got = 'raised %s' % type(e).__name__
+                if got != want:
+                    viol.append({'key': 'non-boolean leaves in %r' % (rule,),
+                                 'detail': 'rule %r whose leaves answered %r decided %r; the truth values of those answers '
+                                           'combine to %r' % (rule, ValCheck.answers, got, want)})
+                    break
+            if len(viol) >= 5:
+                break
+    finally:
+        if had is None:
+            _checks.registered_checks.pop('vq', None)
+        else:
+            _checks.registered_checks['vq'] = had
+    return ev, nt, viol
+
+
 def c01(tier='quick', seed=0):
     n = 6 if tier == 'quick' else 8
     ev, nt, viol, samples = run_sequences(n, seed)
@@ -349,6 +470,13 @@ def c01(tier='quick', seed=0):
                 break
         if len(viol) >= 5:
             break
+    # leaves that answer with values that are not booleans: a check accepts with ANY true value and rejects with any false
+    # one (BaseCheck.__call__), so a registered kind answering with the matched text, a list, a number, None, '' or []
+    # must combine under and / or / not / list-of-lists exactly as its truth value does
+    e3, n3, v3 = nonbool_leaves(seed)
+    ev += e3
+    nt += n3
+    viol.extend(v3)
     return {'name': 'rule-language small scope', 'evaluations': ev, 'distinct_nontrivial': nt,
             'rule': 'every symbol sequence of length <= %d over {(,),and,or,not,leaf} (leaves are distinct role checks), '
                     'each under all truth assignments, accepted ones also in 5 lexical variants and through '
@@ -448,6 +576,13 @@ def c02(tier='quick', seed=0):
         r = check_list_rule(rule)
         if r:
             viol.append({'key': 'parse_rule(%r)' % (rule,), 'detail': r})
+    # the same non-rule values as a policy FILE holds them: through Rules.load with a permissive default rule, through an
+    # enforcer that has a permissive registered default for the name, and as a policy.d override of a permissive main-file
+    # definition; in every layout the name must be rejected at load or deny (a skipped entry would let the fallback answer)
+    e2, n2, v2 = non_rules_in_files()
+    ev += e2
+    nt += n2
+    viol.extend(v2)
     return {'name': 'malformed rules small scope', 'evaluations': ev, 'distinct_nontrivial': nt,
             'rule': 'every symbol sequence of length <= %d that the grammar rejects, hand-picked and random junk '
                     'strings, and %d non-rule values (null, booleans, numbers, mappings, lists holding non-strings); '
